@@ -323,7 +323,7 @@ COQ_CHAINS = [  # (chain id in FlushModel.zchain, argv, retaining)
     (2, ["head", "-n", "3"], False),
     (3, ["filter", "$i % 2 == 1"], False),
     (4, ["cat", "then", "put", "$z = NR", "then", "head", "-n", "3"], False),
-    (5, ["filter", "$i % 2 == 1", "then", "put", "$z = NR"], False),
+    (5, ["put", "$z = NR", "then", "filter", "$i % 2 == 1"], False),
     (6, ["tac"], True),
     (7, ["put", "$z = NR", "then", "tac", "then", "head", "-n", "3"], True),
 ]
